@@ -24,6 +24,11 @@ def main():
         if hasattr(mod, "replay"):
             return mod.replay(json.load(open(args.replay)))
         return 0
+    # one check at a time: the generated definitions and the .vo files are shared state
+    import fcntl
+    os.makedirs(os.path.join(common.VERIF, "build"), exist_ok=True)
+    lock = open(os.path.join(common.VERIF, "build", ".check.lock"), "w")
+    fcntl.flock(lock, fcntl.LOCK_EX)
     ck = common.Check(pid, args.tier)
     if not args.no_build:
         ck.buildst = common.build()
